@@ -42,8 +42,8 @@ def find_case(ctx, cid):
     return None
 
 
-def judge_file(ctx, module, cases_path, tag, budget="10s", workers=None):
-    trace = fam_codec.run_cases(ctx.pvh, cases_path, ctx.work, tag, budget=budget, workers=workers)
+def judge_file(ctx, module, cases_path, tag, budget="10s", workers=None, pvh=None):
+    trace = fam_codec.run_cases(pvh or ctx.pvh, cases_path, ctx.work, tag, budget=budget, workers=workers)
     verdicts, st = vlib.judge(ctx.work, module, trace, ctx.env, ctx.open, tag=tag, **getattr(ctx, "judge_kw", {}))
     return trace, verdicts, st
 
@@ -86,7 +86,8 @@ def confirm(ctx, module, cid, want_class):
     rp = os.path.join(rd, "%s-%d.ndjson" % (ctx.tier, cid))
     open(rp, "w").write(session_prefix(ctx, cid, line))
     for attempt in range(3):
-        _, verdicts, _ = judge_file(ctx, module, rp, "confirm%d_%d" % (cid, attempt), budget="30s", workers=1)
+        pvh = getattr(ctx, "racebin", None) if cid >= 7000000 else None      # executions observed by the race detector are confirmed by it
+        _, verdicts, _ = judge_file(ctx, module, rp, "confirm%d_%d" % (cid, attempt), budget="300s" if pvh else "30s", workers=1, pvh=pvh)
         for (i, prop, reason) in verdicts:
             if alias and i == cid and (prop == alias or (alias == "any" and prop in ("C01", "C02", "C05", "C13")) or (alias == "sys" and prop in ("C06", "C10", "C11"))) and not reason.startswith("known:"):
                 return rp
@@ -636,6 +637,87 @@ def plan_C20(ctx):
         "pre-existing duplicate indexes are the user's: plenc's verdict is only demanded for structs whose existing tags were valid"])
 
 
+def plan_C07(ctx):
+    import random, fam_sched
+    ctx.build()
+    # 1. design: all interleavings of codec construction (repaired protocol) and of interning
+    fams2 = ["WantRS", "WantRR", "WantP", "WantM", "WantAB", "WantAsB", "WantN", "WantF", "WantFR"]
+    runs = [(w, "{p1, p2}") for w in fams2] + ([] if ctx.quick else [("Want3", "{p1, p2, p3}"), ("Want3AB", "{p1, p2, p3}")])
+    def mc_build(wp):
+        w, procs = wp
+        cfg = ("CONSTANTS\n  p1 = p1\n  p2 = p2\n  p3 = p3\n  Procs = %s\n  Want <- %s\n  Publish = \"pending\"\nSPECIFICATION Spec\n"
+               "INVARIANTS NoIncompleteUse RegistryClosed RegistryComplete SameResult\nCHECK_DEADLOCK FALSE\n" % (procs, w))
+        out, st = vlib.tlc(ctx.work, "MCBuild", cfg, name="mcb_" + w, workers=4, timeout=3000, heap="6g")
+        if "is violated" in out or "Error:" in out or st["rc"] != 0:
+            raise Broken("design check CodecBuild (%s) failed:\n%s" % (w, vlib.tlc_brief(out)))
+        return st
+    import concurrent.futures as cf
+    with cf.ThreadPoolExecutor(max_workers=4) as ex:
+        for st in ex.map(mc_build, runs):
+            ctx.add_mc(st)
+    # liveness on the smallest family, and the negative control: the protocol before the repair is rejected by the same model
+    cfgl = ("CONSTANTS\n  p1 = p1\n  p2 = p2\n  p3 = p3\n  Procs = {p1, p2}\n  Want <- WantRS\n  Publish = \"pending\"\nSPECIFICATION FairSpec\nPROPERTY Terminates\nCHECK_DEADLOCK FALSE\n")
+    out, st = vlib.tlc(ctx.work, "MCBuild", cfgl, name="mcb_live", workers=4, timeout=1500)
+    if "is violated" in out or "Error:" in out or st["rc"] != 0:
+        raise Broken("liveness check of CodecBuild failed:\n" + vlib.tlc_brief(out))
+    ctx.add_mc(st)
+    cfgn = ("CONSTANTS\n  p1 = p1\n  p2 = p2\n  p3 = p3\n  Procs = {p1, p2}\n  Want <- WantRS\n  Publish = \"direct\"\nSPECIFICATION Spec\nINVARIANTS NoIncompleteUse\nCHECK_DEADLOCK FALSE\n")
+    outn, _ = vlib.tlc(ctx.work, "MCBuild", cfgn, name="mcb_neg", workers=1, timeout=600)
+    neg_ok = "Invariant NoIncompleteUse is violated" in outn
+    if not neg_ok:
+        raise Broken("negative control failed: the model does not reject the protocol that publishes wrappers during a build")
+    cfgi = ("CONSTANTS\n  p1 = p1\n  p2 = p2\n  p3 = p3\n  Procs = %s\n  Words = {\"a\", \"b\", \"\"}\n  MaxCalls = %d\nSPECIFICATION Spec\n"
+            "INVARIANTS Transparent TableSound NoViews\nPROPERTY Monotone\nCHECK_DEADLOCK FALSE\n" % (("{p1, p2}", 4) if ctx.quick else ("{p1, p2, p3}", 4)))
+    outi, sti = vlib.tlc(ctx.work, "MCIntern", cfgi, name="mci", workers=vlib.NCPU, timeout=3000, heap="8g")
+    if "is violated" in outi or "Error:" in outi or sti["rc"] != 0:
+        raise Broken("design check Intern failed:\n" + vlib.tlc_brief(outi))
+    ctx.add_mc(sti)
+    log("design checks CodecBuild (%d configurations, liveness, negative control) and Intern: %d states" % (len(runs), ctx.states))
+    # 2. schedules replayed on the real library through the yield hooks
+    rnd = random.Random(ctx.seed)
+    cases = fam_sched.cases(ctx.quick, rnd)
+    stress = []
+    for name, procs in fam_sched.families(ctx.quick):
+        stress.append({"ev": "stress", "family": name, "rounds": 150 if ctx.quick else 3000, "copies": 3,
+                       "procs": [{"op": op, "T": t, "v": v} for (op, t, v) in procs]})
+    for c in cases + stress:
+        c["cfg"] = fam_codec.CFGS["default"]
+    p1 = os.path.join(ctx.work, "sched_cases.ndjson")
+    p2 = os.path.join(ctx.work, "stress_cases.ndjson")
+    fam_codec.write_cases(cases, p1, 0)
+    fam_codec.write_cases(stress, p2, 5000000)
+    # 3. the same executions under the race detector: a sample of the schedules and the free-running stress
+    racebin = vlib.build_harness(ctx.work + "/race", race=True)
+    sample = cases[::7] if ctx.quick else cases[::3]
+    p3 = os.path.join(ctx.work, "race_cases.ndjson")
+    fam_codec.write_cases(sample + stress, p3, 7000000)
+    ctx.case_files = [p1, p2, p3]
+    os.environ["PVH_GOMAXPROCS"] = "8"
+    t1 = fam_codec.run_cases(ctx.pvh, p1, ctx.work, "sched", budget="30s")
+    t2 = fam_codec.run_cases(ctx.pvh, p2, ctx.work, "stress", budget="120s")
+    t3 = fam_codec.run_cases(racebin, p3, ctx.work, "race", budget="300s")
+    trace = os.path.join(ctx.work, "all_trace.ndjson")
+    with open(trace, "w") as f:
+        for t in (t1, t2, t3):
+            f.write(open(t).read())
+    ctx.racebin = racebin
+    verdicts, jst = vlib.judge(ctx.work, "TraceSched", trace, ctx.env, ctx.open, tag="main")
+    nhooks = 0
+    for line in open(t1):
+        nhooks += line.count('"point"')
+    rule = ("design: every interleaving of 2 (thorough: also 3) processes building codecs for recursive-through-slice / pointer / map, mutually recursive, nested "
+            "and failing families on a shared registry, and of 2-3 processes interning 3 words; replay: %d schedules with at most two preemptions (first a "
+            "steps of one goroutine, then b of another, then to completion; a < %d, b from a Fibonacci-spaced set in the quick tier) plus random schedules over %d families of concurrent first uses "
+            "(marshal / unmarshal / CodecForType of related types, struct-keyed map decodes sharing the key scratch pool, interned fields), %d yield points "
+            "granted; free-running stress of the same families; a sample of the schedules and the stress under the race detector. "
+            "distinct = distinct (family, schedule); non-trivial = at least one preemption" % (len(cases), 40 if ctx.quick else 70, len(fam_sched.families(ctx.quick)), nhooks))
+    return finish(ctx, "TraceSched", verdicts, [trace], jst, rule, [
+        "atomicity and ordering are decided at the granularity of the yield hooks; data races in the memory-model sense are what the race detector reports on the "
+        "replayed schedules and the stress run",
+        "one P (GOMAXPROCS=1) during a scheduled replay so that sync.Pool hand-over between goroutines is deterministic"],
+        extra={"negative_control_model_rejects_pre_repair_protocol": neg_ok, "yield_points_granted": nhooks})
+
+
 def plan_C06(ctx):
     return system_family(ctx)
 
@@ -685,12 +767,13 @@ def plan_C12(ctx):
     return codec_family(ctx, 6000, 200000, mc_cfgs_quick=("both", "pa"), rnd_cfg="mix")
 
 
-PLANS = {"C20": plan_C20, "C19": plan_C19, "C17": plan_C17, "C16": plan_C16, "C13": plan_C13, "C15": plan_C15, "C08": plan_C08, "C04": plan_C04, "C06": plan_C06, "C11": plan_C11, "C03": plan_C03, "C10": plan_C10, "C18": plan_C18, "C12": plan_C12, "C01": plan_C01, "C02": plan_C02, "C05": plan_C05, "C09": plan_C09, "C14": plan_C14}
+PLANS = {"C07": plan_C07, "C20": plan_C20, "C19": plan_C19, "C17": plan_C17, "C16": plan_C16, "C13": plan_C13, "C15": plan_C15, "C08": plan_C08, "C04": plan_C04, "C06": plan_C06, "C11": plan_C11, "C03": plan_C03, "C10": plan_C10, "C18": plan_C18, "C12": plan_C12, "C01": plan_C01, "C02": plan_C02, "C05": plan_C05, "C09": plan_C09, "C14": plan_C14}
 MODULES = {k: "TraceCodec" for k in PLANS}
 MODULES["C18"] = "TracePrim"
 MODULES["C03"] = MODULES["C10"] = "TraceDecode"
 MODULES["C06"] = MODULES["C11"] = MODULES["C17"] = MODULES["C19"] = "TraceSystem"
 MODULES["C04"] = "TraceHostile"
+MODULES["C07"] = "TraceSched"
 MODULES["C20"] = "TraceTag"
 MODULES["C08"] = "TraceTypes"
 MODULES["C15"] = "TraceJSONOut"
